@@ -17,6 +17,9 @@ parenthesises exactly where the *documented* table and left associativity requir
   never changes the grouping; `C31_code_agrees_with_reference` — on printed trees the code (which
   keeps `-<literal>` a literal when nothing tighter follows, so that `i64::MIN` can be written)
   coincides with the reference parser in which `-` is always an ordinary prefix operator.
+* `C31_code_extends_reference` — on every token list (arbitrary left context, no parenthesisation
+  assumed) the code yields the reference parser's tree whenever the reference yields one;
+  `C31_reference_atom_blind` — the reference never looks at atoms when it decides about a `-`.
 * `C31_fold_breaks_table` — the treatment before the fix of D11 (`FoldMode.always`) contradicts the
   table on `-2 % 3`.
 -/
@@ -558,6 +561,207 @@ theorem wfArgs_subst (σ : Atom → Atom) (hr : ∀ a n, σ a = .int n → n ≤
     simp only [Args.subst, Args.WF] at *; exact ⟨wf_subst σ hr e h.1, wfArgs_subst σ hr es h.2⟩
 end
 
+-- ---------------------------------------------------------------- the code simulates the reference parser
+
+theorem prefix_rel (toks : List Tok) :
+    prefixOp? .loose toks = prefixOp? .never toks ∨
+    (∃ a rest', toks = .op .sub :: .atom a :: rest' ∧ a.isNum = true ∧ bindsTighter rest' = false ∧
+      prefixOp? .loose toks = none ∧ prefixOp? .never toks = some (.neg, .atom a :: rest')) := by
+  cases toks with
+  | nil => exact Or.inl rfl
+  | cons t r =>
+    cases t with
+    | op o =>
+      cases o <;> try (exact Or.inl rfl)
+      cases r with
+      | nil => exact Or.inl rfl
+      | cons t2 r2 =>
+        cases t2 with
+        | atom a =>
+          cases hn : a.isNum with
+          | false => left; simp [prefixOp?, hn]
+          | true =>
+            cases hb : bindsTighter r2 with
+            | true => left; simp [prefixOp?, foldsHere, hb]
+            | false => right; exact ⟨a, r2, rfl, hn, hb, by simp [prefixOp?, foldsHere, hb, hn], by simp [prefixOp?, foldsHere]⟩
+        | _ => exact Or.inl rfl
+    | _ => exact Or.inl rfl
+
+theorem loop_stop_eq (mode : FoldMode) (k : Nat) (lhs : Expr) (rest : List Tok) (h : bindsTighter rest = false) :
+    loop mode (k + 1) 6 lhs rest = .ok lhs rest := by
+  rw [loop_succ]
+  unfold bindsTighter at h
+  split at h
+  all_goals (try (simp at h))
+  · rename_i o _
+    simp only [PrefixOp.prec] at h
+    simp only
+    rw [if_pos (by omega)]
+  · split <;> simp_all
+
+
+theorem sim_all : ∀ f,
+    (∀ bp toks e r, parseBp .never f bp toks = .ok e r → parseBp .loose f bp toks = .ok e r) ∧
+    (∀ bp lhs toks e r, loop .never f bp lhs toks = .ok e r → loop .loose f bp lhs toks = .ok e r) ∧
+    (∀ toks e r, parseTerm .never f toks = .ok e r → parseTerm .loose f toks = .ok e r) ∧
+    (∀ c toks as r, parseList .never f c toks = .ok as r → parseList .loose f c toks = .ok as r) := by
+  intro f
+  induction f with
+  | zero => simp [parseBp, loop, parseTerm, parseList]
+  | succ n ih =>
+    obtain ⟨ihB, ihL, ihT, ihA⟩ := ih
+    refine ⟨?_, ?_, ?_, ?_⟩
+    · intro bp toks e r h
+      rw [parseBp_succ] at h ⊢
+      rcases prefix_rel toks with heq | ⟨a, rest', rfl, hn, hb, hl, hnv⟩
+      · rw [heq]
+        split at h
+        · rename_i op rest hp
+          cases hsub : parseBp .never n op.prec rest with
+          | ok rhs r1 =>
+            rw [hsub] at h; simp only at h
+            rw [ihB _ _ _ _ hsub]; simp only
+            exact ihL _ _ _ _ _ h
+          | err => rw [hsub] at h; cases h
+          | fuel => rw [hsub] at h; cases h
+        · cases hsub : parseTerm .never n toks with
+          | ok lhs r1 =>
+            rw [hsub] at h; simp only at h
+            rw [ihT _ _ _ hsub]; simp only
+            exact ihL _ _ _ _ _ h
+          | err => rw [hsub] at h; cases h
+          | fuel => rw [hsub] at h; cases h
+      · -- `-` numeric-literal, nothing tighter follows: the code keeps the literal, the reference negates it
+        rw [hnv] at h
+        rw [hl]
+        simp only [PrefixOp.prec] at h
+        cases n with
+        | zero => simp [parseBp] at h
+        | succ m =>
+          rw [parseBp_succ] at h
+          have hnone : prefixOp? .never (.atom a :: rest') = none := by simp [prefixOp?]
+          rw [hnone] at h
+          simp only at h
+          cases m with
+          | zero => simp [parseTerm] at h
+          | succ k =>
+            rw [parseTerm_succ] at h
+            rw [parseTerm_succ]
+            simp only [skipNl] at h ⊢
+            cases a with
+            | int v =>
+              simp only at h ⊢
+              by_cases hv : v ≤ I64_MAX
+              · simp only [hv, if_true] at h
+                rw [loop_stop_eq .never k _ _ hb] at h
+                simp only [Expr.unop] at h
+                have : v ≤ I64_MAX + 1 := by omega
+                simp only [this, if_true]
+                exact ihL _ _ _ _ _ h
+              · simp only [hv, if_false] at h; cases h
+            | float s =>
+              simp only at h ⊢
+              rw [loop_stop_eq .never k _ _ hb] at h
+              simp only [Expr.unop] at h
+              exact ihL _ _ _ _ _ h
+            | _ => simp [Atom.isNum] at hn
+    · intro bp lhs toks e r h
+      rw [loop_succ] at h ⊢
+      split at h
+      · split at h
+        · rename_i hc; rw [if_pos hc]; exact h
+        · rename_i rest hc
+          rw [if_neg hc]
+          cases hsub : parseList .never n .rparen rest with
+          | ok args r1 =>
+            rw [hsub] at h; simp only at h
+            rw [ihA _ _ _ _ hsub]; simp only
+            exact ihL _ _ _ _ _ h
+          | err => rw [hsub] at h; cases h
+          | fuel => rw [hsub] at h; cases h
+      · split at h
+        · rename_i hc; rw [if_pos hc]; exact h
+        · rename_i hc
+          rw [if_neg hc]
+          split at h
+          · exact ihL _ _ _ _ _ h
+          · cases h
+      · split at h
+        · rename_i hc; rw [if_pos hc]; exact h
+        · rename_i rest hc
+          rw [if_neg hc]
+          cases hsub : parseBp .never n 0 (skipNl rest) with
+          | ok i r1 =>
+            rw [hsub] at h; simp only at h
+            rw [ihB _ _ _ _ hsub]; simp only
+            split at h
+            · exact ihL _ _ _ _ _ h
+            · cases h
+          | err => rw [hsub] at h; cases h
+          | fuel => rw [hsub] at h; cases h
+      · split at h
+        · rename_i hc; rw [if_pos hc]; exact h
+        · rename_i hc; rw [if_neg hc]; exact ihL _ _ _ _ _ h
+      · split at h
+        · rename_i hc; rw [if_pos hc]; exact h
+        · rename_i hc; rw [if_neg hc]; exact ihL _ _ _ _ _ h
+      · split at h
+        · rename_i hc; rw [if_pos hc]; exact h
+        · rename_i o rest hc
+          rw [if_neg hc]
+          cases hsub : parseBp .never n o.prec rest with
+          | ok rhs r1 =>
+            rw [hsub] at h; simp only at h
+            rw [ihB _ _ _ _ hsub]; simp only
+            exact ihL _ _ _ _ _ h
+          | err => rw [hsub] at h; cases h
+          | fuel => rw [hsub] at h; cases h
+      · exact h
+    · intro toks e r h
+      rw [parseTerm_succ] at h ⊢
+      split at h
+      · simp_all
+      · simp_all
+      · simp_all
+      · simp_all
+      · rename_i rest hs
+        cases hsub : parseList .never n .rparen rest with
+        | ok es r1 => have := ihA _ _ _ _ hsub; simp_all
+        | err => simp_all
+        | fuel => simp_all
+      · rename_i rest hs
+        cases hsub : parseList .never n .rbrack rest with
+        | ok es r1 => have := ihA _ _ _ _ hsub; simp_all
+        | err => simp_all
+        | fuel => simp_all
+      · simp_all
+    · intro c toks as r h
+      rw [parseList_succ] at h ⊢
+      split at h
+      · simp_all
+      · rename_i t rest hs
+        split at h
+        · simp_all
+        · cases hsub : parseBp .never n 0 (t :: rest) with
+          | ok e1 r1 =>
+            have := ihB _ _ _ _ hsub
+            simp_all
+            split at h
+            · rename_i r'
+              cases hsub2 : parseList .never n c r' with
+              | ok es r2 => have := ihA _ _ _ _ hsub2; simp_all
+              | err => simp_all
+              | fuel => simp_all
+            · rename_i r'
+              cases hsub2 : parseList .never n c r' with
+              | ok es r2 => have := ihA _ _ _ _ hsub2; simp_all
+              | err => simp_all
+              | fuel => simp_all
+            · simp_all
+            · simp_all
+          | err => simp_all
+          | fuel => simp_all
+
 -- ---------------------------------------------------------------- the property theorems
 
 /-- The precedence numbers in `parse.rs` are the documented levels (book, "Operator precedence"). -/
@@ -617,6 +821,32 @@ theorem C31_neg_literal_uniform (t : Expr) (h : t.WF) (σ : Atom → Atom)
   rw [← print_subst σ hid t]
   exact C31_parse_print _ (wf_subst σ hr t h)
 
+/-- **Arbitrary context.** On *every* token list — any left context, any enclosing binding power,
+    parenthesised or not — whenever the reference parser (in which `-` is a prefix operator of level 6
+    whatever its operand and whatever encloses it) produces a tree, the parser of `/repo` produces
+    exactly the same tree and remainder.  (The converse fails only for `-9223372036854775808`, which
+    the reference cannot spell.)  In particular whether a literal keeps its sign never depends on the
+    operator to its left: `9 % -2 * 4` is `9 % (-(2 * 4))` like `9 % -x * 4`. -/
+theorem C31_code_extends_reference (toks : List Tok) (e : Expr) (r : List Tok)
+    (h : parseExprWith .never toks = .ok e r) : parseExpr toks = .ok e r :=
+  (sim_all (fuelFor toks)).1 0 (skipNl toks) e r h
+
+/-- The reference parser's decision "is this `-` a prefix operator?" does not look at atoms at all,
+    so in it a literal and a variable operand are indistinguishable in every context. -/
+theorem C31_reference_atom_blind (σ : Atom → Atom) (toks : List Tok) :
+    prefixOp? .never (toks.map (Tok.subst σ)) =
+      (prefixOp? .never toks).map (fun p => (p.1, p.2.map (Tok.subst σ))) := by
+  cases toks with
+  | nil => rfl
+  | cons t r =>
+    cases t with
+    | op o =>
+      cases o <;> try rfl
+      cases r with
+      | nil => rfl
+      | cons t2 r2 => cases t2 <;> simp [prefixOp?, foldsHere, Tok.subst]
+    | _ => rfl
+
 /-- `-2 % 3` and `-x % 3` (and `^`): both are `-(… % …)`, as the table says (unary minus is on the
     additive level, below `%` and `^`); and the smallest integer can still be written. -/
 theorem C31_neg_literal_examples :
@@ -629,8 +859,12 @@ theorem C31_neg_literal_examples :
     parseExpr [.op .sub, .atom (.int 9223372036854775808)]
       = .ok (.neg (.atom (.int 9223372036854775808))) [] ∧
     parseExpr [.op .sub, .atom (.int 9223372036854775808), .op .add, .atom (.int 1)]
-      = .ok (.bin .add (.neg (.atom (.int 9223372036854775808))) (.atom (.int 1))) [] := by
-  refine ⟨?_, ?_, ?_, ?_, ?_⟩ <;> rfl
+      = .ok (.bin .add (.neg (.atom (.int 9223372036854775808))) (.atom (.int 1))) [] ∧
+    parseExpr [.atom (.int 9), .op .mod, .op .sub, .atom (.int 2), .op .mul, .atom (.int 4)]
+      = .ok (.bin .mod (.atom (.int 9)) (.neg (.bin .mul (.atom (.int 2)) (.atom (.int 4))))) [] ∧
+    parseExpr [.atom (.int 9), .op .mod, .op .sub, .atom (.ident "x"), .op .mul, .atom (.int 4)]
+      = .ok (.bin .mod (.atom (.int 9)) (.neg (.bin .mul (.atom (.ident "x")) (.atom (.int 4))))) [] := by
+  refine ⟨?_, ?_, ?_, ?_, ?_, ?_, ?_⟩ <;> rfl
 
 /-- What the treatment before the fix of D11 (`always`: the literal swallows the sign before binary
     operators are looked at) does to the same input: it contradicts the table. -/
